@@ -140,9 +140,39 @@ def run_unit(unit, tier):
             check_case(res, t, doc, full=True, key=(cls, call, ti, 0, di), nxt=_next(sing, di))
         for di, doc in enumerate(mult):
             check_case(res, t, doc, full=False, key=(cls, call, ti, 1, di), nxt=_next(mult, di))
+        check_spec_built(res, t, sing, key=(cls, call, ti, "spec"))
         if ti == 0:
             res.sample({"term": t, "doc": sing[0]})
     return res
+
+
+def check_spec_built(res, t, docs, key):
+    """The same leaf written as a spec and loaded by the parser is the same condition: it filters every single-item
+    container like the DSL-built one (terms without a spec spelling - tuple / type-object corner cases - are skipped)."""
+    from mc import specs as S
+    from valida.conditions import ConditionLike
+    try:
+        spec = S.cond_spec(t)
+        built = T.build_cond(t)
+        parsed = ConditionLike.from_spec(spec)
+    except BaseException:
+        return
+    res.count("evaluations")
+    res.state(*key)
+    for doc in docs:
+        res.count("transitions", 2)
+        try:
+            a = built.filter(fresh(doc)).result
+        except BaseException:
+            continue
+        try:
+            b = parsed.filter(fresh(doc)).result
+        except BaseException as e:
+            b = "raises " + type(e).__name__
+        if a != b:
+            res.violation("spec-built:%s.%s" % (t[1], t[2]), "%s loaded from its spec %r filters %r differently from the DSL-built condition"
+                          % (T.show(t), spec, doc), {"term": t, "doc": doc, "spec_built": True}, observed=b, expected=a)
+            return
 
 
 def _next(docs, di):
@@ -157,6 +187,9 @@ def _next(docs, di):
 
 def replay(case):
     res = Result()
+    if case.get("spec_built"):
+        check_spec_built(res, case["term"], [case["doc"]], key=("replay",))
+        return list(res.violations.values())
     check_case(res, case["term"], case["doc"], full=True, key=("replay",), nxt=case.get("then"))
     return list(res.violations.values())
 
